@@ -86,6 +86,22 @@ pub fn synthetic_list(rng: &mut Rng, n: usize) -> Vec<String> {
         let kind = rng.below(N_KINDS);
         v.push(rule_of_kind(kind, rng, i, n));
     }
+    v.extend(complete_family(rng, "zzfamily"));
+    v
+}
+
+/// Rules that all share one bucket (their only usable token) and ALL fuse: several groups (one per option
+/// mask) of two or three members each, and nothing else in the bucket.  The order in which the fused rules
+/// of such a bucket are written must not depend on the hash seed.
+fn complete_family(rng: &mut Rng, token: &str) -> Vec<String> {
+    let types = ["image", "script", "stylesheet", "font", "media", "object", "xmlhttprequest", "websocket", "ping", "other", "subdocument"];
+    let groups = 2 + rng.below(9);
+    let mut v = vec![];
+    for g in 0..groups {
+        for m in 0..(2 + rng.below(2)) {
+            v.push(format!("/{}/m{}${}", token, m, types[g]));
+        }
+    }
     v
 }
 
@@ -130,6 +146,9 @@ fn rule_of_kind(kind: usize, rng: &mut Rng, i: usize, n: usize) -> String {
 /// every combination over the runs (a loader that derives one container from another, or treats
 /// "empty" as "absent", is only visible on such lists).
 pub fn sparse_list(rng: &mut Rng) -> Vec<String> {
+    if rng.chance(1, 6) {
+        return complete_family(rng, "zzsparse");
+    }
     let n_kinds = 1 + rng.below(3);
     let kinds: Vec<usize> = (0..n_kinds).map(|_| rng.below(N_KINDS)).collect();
     let n = 1 + rng.below(6);
@@ -345,6 +364,32 @@ pub fn record_c10(out: &str, seed: u64, thorough: bool) {
                         b[i] = v;
                         faults.push((format!("{}:subst:{}:{}", name, i, v), b));
                     }
+                }
+            }
+        }
+        // structure-preserving corruption of embedded JSON text (stored procedural / action rules): every
+        // balanced [...] / {...} span inside a printable run is hollowed out with blanks, so that all length
+        // prefixes of the container format stay valid while the JSON value changes shape
+        for open in 0..img.len() {
+            let (o, c) = match img[open] { b'[' => (b'[', b']'), b'{' => (b'{', b'}'), _ => continue };
+            let mut depth = 0i32;
+            let mut close = None;
+            for j in open..img.len().min(open + 300) {
+                if img[j] < 0x20 || img[j] > 0x7e { break; }
+                if img[j] == o { depth += 1; }
+                if img[j] == c { depth -= 1; if depth == 0 { close = Some(j); break; } }
+            }
+            if let Some(cl) = close {
+                if cl > open + 1 {
+                    let mut b = img.to_vec();
+                    for x in b[open + 1..cl].iter_mut() { *x = b' '; }
+                    faults.push((format!("{}:hollow:{}:{}", name, open, cl), b));
+                    // and the two brackets swapped for the other kind: an object where a list is expected
+                    let mut b2 = img.to_vec();
+                    b2[open] = if o == b'[' { b'{' } else { b'[' };
+                    b2[cl] = if c == b']' { b'}' } else { b']' };
+                    for x in b2[open + 1..cl].iter_mut() { *x = b' '; }
+                    faults.push((format!("{}:hollow-swap:{}:{}", name, open, cl), b2));
                 }
             }
         }
